@@ -46,6 +46,8 @@ def sh(cmd, timeout, cwd=None, mem_gb=12, stdout_path=None):
         p = subprocess.run(cmd, cwd=cwd, stdout=out_f, stderr=subprocess.PIPE, timeout=timeout,
                            preexec_fn=lim, text=True)
         rc, so, se = p.returncode, (p.stdout if not stdout_path else ""), p.stderr
+        if rc == -9:      # SIGKILL from outside (kernel OOM killer, another process): not a timeout
+            rc, se = -99, (se or "") + " KILLED by signal 9 (out of memory on the machine?)"
     except subprocess.TimeoutExpired as e:
         rc, so, se = -9, "", "TIMEOUT after %ss" % timeout
     finally:
@@ -291,6 +293,8 @@ def run_job_once(job, tier, verbose=False, keep=None):
         res["solver_s"] = round(dt, 2)
         if rc == -9:
             raise MachineryError("cbmc timeout after %ss" % limit)
+        if rc == -99:
+            raise MachineryError("cbmc was killed by signal 9 after %.0fs (machine out of memory / killed from outside), not a timeout" % dt)
         results, msgs, status = parse_cbmc_json(out)
         if status is None or (not results and status != "success"):
             errs = [t for (k, t) in msgs if k in ("ERROR",)] or [t for (k, t) in msgs][-5:]
